@@ -12,8 +12,9 @@ theorem csr_guard_present : Cfg.current.csrGuard = true := by decide
 
 /-- **C30 at full strength**: for every valid node / relationship set, the bulk-loaded database
     and the database that committed the same data through a transaction give the same dump through
-    every read interface.  NOT provable as stated: whole-map property reads differ when two parallel
-    bulk relationships carry the same property key (`C30_counterexample_parallel_edge_key`). -/
+    every read interface.  Not proved in general (only the segment part and a worked example are); the
+    one difference found on the pinned tree — whole-map property reads when two parallel bulk
+    relationships carry the same property key (`C30_counterexample_parallel_edge_key`) — is fixed. -/
 def C30_full : Prop :=
   ∀ (ns : List BulkNode) (es : List BulkEdge), bulkValid ns es = true →
     ∃ d b t, bulkLoad ns es = some d ∧ Engine.open d = .ok b ∧
@@ -74,16 +75,19 @@ theorem worked_example :
 /-! ### counterexamples -/
 
 /-- two parallel bulk relationships with the same property key: the single-key read returns the
-    value of the LAST one on both sides, the whole-map read of the bulk-loaded store the FIRST one
-    (same root cause as C05-whole-map-read-returns-oldest-sunk-value) -/
+    value of the LAST one on both sides; the pinned insertion loop of the whole-map read
+    (`extendWith false`) returned the FIRST one for the bulk-loaded store, the current one agrees with
+    the transactional load (same root cause as C05-whole-map-read-returns-oldest-sunk-value; fixed by
+    c7ee0a6) -/
 def esDup : List BulkEdge := [⟨10, R, 11, [(K, 5)]⟩, ⟨10, R, 11, [(K, 6)]⟩]
 
 theorem C30_counterexample_parallel_edge_key :
     ∃ d b t, bulkLoad ns1 esDup = some d ∧ Engine.open d = .ok b ∧
       Storage.run Cfg.current [.tx (txLoad ns1 esDup) true] = .ok t ∧
       b.edgeProp ⟨0, 2, 1⟩ K = some 6 ∧ t.edgeProp ⟨0, 2, 1⟩ K = some 6 ∧
-      b.edgeProps ⟨0, 2, 1⟩ = [(K, 5)] ∧ t.edgeProps ⟨0, 2, 1⟩ = [(K, 6)] ∧ bulkDupEdgeKey esDup = true :=
-  ⟨_, _, _, rfl, rfl, rfl, by decide, by decide, by decide, by decide, by decide⟩
+      Store.extendWith false (b.store.fetchEdge ⟨0, 2, 1⟩ []) [] = [(K, 5)] ∧
+      b.edgeProps ⟨0, 2, 1⟩ = [(K, 6)] ∧ t.edgeProps ⟨0, 2, 1⟩ = [(K, 6)] ∧ bulkDupEdgeKey esDup = true :=
+  ⟨_, _, _, rfl, rfl, rfl, by decide, by decide, by decide, by decide, by decide, by decide⟩
 
 /-- pinned tree: a bulk load without relationships opens, and the first incoming traversal panics
     (edge-free segment, csr.rs:67); fixed by f429866 -/
